@@ -194,21 +194,20 @@ Definition op_ok (o : op) : bool :=
   | OCopy d s => name_ok d && name_ok s
   end.
 
-(* storage.Copy between two FS objects: src.NewReader, then dst.NewWriter
-   (MkdirAll + os.Create, which truncates), then io.Copy.  The reader is
-   opened BEFORE the destination is truncated: when both names are the same
-   file the copy reads the just truncated file and the object ends up empty. *)
+(* storage.Copy between two FS objects: src.NewReader (an absent source is an
+   error); when both are the same file nothing more is done (fix 11cc580);
+   otherwise dst.NewWriter (MkdirAll + os.Create) and io.Copy. *)
 Definition same_path (a b : path) : bool := match path_cmp a b with Eq => true | _ => false end.
 Definition copy (m : fs) (dst src : path) : bool * fs :=
   match read m src with
-  | ROk c => write m dst (if same_path dst src then [] else c)
+  | ROk c => if same_path dst src then (true, m) else write m dst c
   | _ => (false, m)
   end.
-(* specification: Copy(dst, src) = write(dst, read(src)); the non-strict
-   variant spells out what the code does for dst = src *)
-Definition spec_copy (strict : bool) (s : smap) (dst src : path) : bool * smap :=
+(* specification: Copy(dst, src) = write(dst, read(src)), which for dst = src
+   leaves the map as it is *)
+Definition spec_copy (s : smap) (dst src : path) : bool * smap :=
   match sget src s with
-  | Some c => spec_write s dst (if negb strict && same_path dst src then [] else c)
+  | Some c => if same_path dst src then (true, s) else spec_write s dst c
   | None => (false, s)
   end.
 
@@ -224,7 +223,7 @@ Definition step_spec (strict : bool) (s : smap) (o : op) : res * smap :=
   | OWrite n c => let '(ok, s') := spec_write s (components n) c in (RW ok, s')
   | ORead n => (RR ((if strict then spec_read_strict else spec_read) s (components n)), s)
   | OList pre => (RL (spec_list strict s pre), s)
-  | OCopy d sr => let '(ok, s') := spec_copy strict s (components d) (components sr) in (RC ok, s')
+  | OCopy d sr => let '(ok, s') := spec_copy s (components d) (components sr) in (RC ok, s')
   end.
 
 Fixpoint run_fs (m : fs) (ops : list op) : list res * fs :=
@@ -241,14 +240,13 @@ Fixpoint run_spec (strict : bool) (s : smap) (ops : list op) : list res * smap :
 
 (* the only operations on which the code and the property's wording differ:
    listing when a stored name with the prefix lies below a directory whose
-   name is not valid UTF-8, and copying a stored object onto itself *)
+   name is not valid UTF-8 *)
 Definition deviating (s : smap) (o : op) : bool :=
   match o with
   | ORead _ => false
   | OList pre => existsb (fun kv => has_prefix (join_path (fst kv)) pre && negb (walkable (fst kv))) s
   | OWrite _ _ => false
-  | OCopy d sr => same_path (components d) (components sr) &&
-                  match sget (components sr) s with Some _ => true | None => false end
+  | OCopy _ _ => false
   end.
 Fixpoint no_deviation (s : smap) (ops : list op) : bool :=
   match ops with
